@@ -60,6 +60,8 @@ pub enum Op {
     /// the process of `peer` is restarted on the same address (new session object, new magic, game at frame
     /// 0); only carried out while that peer has not advanced a frame yet (i.e. during the handshake)
     Restart { tick: u32, peer: u8 },
+    /// the next packet of wire class `class` (sim::wire::Class) sent on the directed link is lost
+    DropNext { tick: u32, from: u8, to: u8, class: u8 },
 }
 
 impl Op {
@@ -76,6 +78,7 @@ impl Op {
             | Op::Forge { tick, .. }
             | Op::Slow { tick, .. }
             | Op::Restart { tick, .. }
+            | Op::DropNext { tick, .. }
             | Op::Misuse { tick, .. } => *tick,
             Op::Corrupt { .. } => 0,
         }
